@@ -57,7 +57,11 @@ Verdict(r) ==
   ELSE IF r.postanom # <<>> THEN <<"C01:anomaly." \o r.postanom[1]>>
   ELSE
     LET post == FromJ(r.post)
-        outs == Outcomes(pre, r.op, post.nodes)
+        outs0 == Outcomes(pre, r.op, post.nodes)
+        outs == IF r.op.name \in {"merge_duplicate_edges", "cleanup"}
+                  THEN {IF o.res = "ok" THEN [o EXCEPT !.st = AlignEdges(o.st, post, r.op.name = "cleanup" /\ r.op.b5)] ELSE o
+                        : o \in outs0}
+                  ELSE outs0
         inv  == StateClauses(post) \o ActionClauses(pre, r, post)
     IN IF \E o \in outs : Mismatch(o, r, post) = "ok" THEN inv
        ELSE LET o == IF \E x \in outs : x.res = r.res THEN CHOOSE x \in outs : x.res = r.res
